@@ -40,6 +40,11 @@ def parse_type(s):
         t.kind, t.bits = 'ptr', 64
         if s.endswith('*'):
             t.elem = parse_type(s[:-1].strip()) if not s[:-1].strip().endswith(')') else None
+    elif s.startswith('<{') and s.endswith('}>'):
+        t.kind = 'struct'
+        inner = s[2:-2].strip()
+        t.elems = [parse_type(x) for x in _split_top(inner)] if inner else []
+        t.bits = sum(e.bits for e in t.elems)
     elif s.startswith('<') and s.endswith('>'):
         m = re.match(r'^<(\d+) x (.*)>$', s)
         t.kind = 'vec'
